@@ -41,7 +41,9 @@ def standard(tree, rng=None, hostile_content=True, specials=False):
       b"hWeb\tURL:http://example.org/\n"
       b"\n")
     w("map/inner.txt", b"inner\n")
-    w("menu.gophermap", b"iinfo line\tfake\t(NULL)\t0\n0Readme\t/README\n")
+    # (relative links in a gophermap *file* are relative to the directory the file is in)
+    w("menu.gophermap", b"iinfo line\tfake\t(NULL)\t0\n0Readme\t/README\n0Relative readme\tREADME\n1Relative docs\tdocs\n")
+    w("docs/sub/more.gophermap", b"0Deep, relative\tdeep.txt\n0Up and over\t/docs/a.txt\n")
     os.symlink("README", tree.path("link-to-readme"))
     os.symlink("docs", tree.path("link-to-docs"))
     if hostile_content:
@@ -91,12 +93,19 @@ def add_full_list_content(tree):
     tree.write("hello.pyg", PYG_SRC)
     tree.write("script.sh", b"#!/bin/sh\necho script-output\n", mode=0o755)
     tree.write("tmpl.html.tal", b"<html><body><p tal:content=\"selector\">x</p></body></html>\n")
+    # a template whose path expressions try to step out of the root through the loaders the handler provides
+    tree.write("escape.html.tal", b"<html><body><p tal:content=\"root/../getchildrennames | string:refused\">a</p>"
+                                  b"<p tal:content=\"dir/../../getchildrennames | string:refused\">b</p>"
+                                  b"<p tal:content=\"rroot/../getchildrennames | string:refused\">c</p>"
+                                  b"<div tal:replace=\"structure root/../outside-tpl | string:refused\">d</div>"
+                                  b"<p tal:content=\"root/docs/../../getpath | string:refused\">e</p>"
+                                  b"<p tal:content=\"root/docs/getchildrennames\">inside is fine</p></body></html>\n")
     return [("/arch.zip", "dir"), ("/arch.zip/inside.txt", "file"), ("/arch.zip/zd", "dir"),
             ("/arch.zip/zd/nested.txt", "file"), ("/arch.zip/old.zip", "dir"), ("/arch.zip/old.zip/notes.txt", "file"),
             ("/arch.zip/zd/broken.zip", "file"), ("/arch.zip/zd/page.html", "file"), ("/arch.zip/box.mbox", "file"), ("/arch.zip/md", "dir"),
             ("/arch.zip/run.pyg", "file"), ("/arch.zip/tools", "dir"), ("/arch.zip/tools/report.sh", "file"), ("/arch.zip/tools/gen.pyg", "file"),
             ("/arch.zip/box.mbox|/MBOX-MESSAGE/1", "file"),
-            ("/arch.zip/md|/MAILDIR-MESSAGE/1", "file"), ("/mail/box.mbox|/MBOX-MESSAGE/1", "file"), ("/hello.pyg", "file"), ("/script.sh", "file"),
+            ("/arch.zip/md|/MAILDIR-MESSAGE/1", "file"), ("/mail/box.mbox|/MBOX-MESSAGE/1", "file"), ("/hello.pyg", "file"), ("/script.sh", "file"), ("/escape.html.tal", "file"),
             ("/tmpl.html.tal", "file")]
 
 
